@@ -34,16 +34,21 @@ PROPS = ["\\p", "\\P", "{", "}", "L", "Lu", "gc", "=", "Script", "Greek", "RGI_E
 PRESCAN = ["[[]", "[\\]]", "[(]", "[)]", "[(?<n>]", "\\(", "\\[", "(a)", "(?<n>a)", "(?<n>b)", "\\1", "\\2", "\\k<n>", "\\k<m>", "(?:", ")", "|",
            "[a", "]", "[^", "\\]", "[[a]]", "(?<=(b))", "[\\q{(}]"]
 
+# modifier groups around constructs whose validity differs between the u and the v grammar
+MODSETS = ["(?i:", "(?-i:", "(?s:", "(?m-i:", ")", "[a--b]", "[\\q{ab}]", "[(]", "[a-]", "[!!]", "[a|b]", "\\p{RGI_Emoji}", "[[a]&&[a]]",
+           "a", "|", "[^a]", "[a&&b]", "[\\q{ab}&&\\q{ab}]", "[^\\q{ab}&&\\q{ab}]", "[^\\q{a}]", "(", "\\1", "{2}", "[\\w--\\q{|_}]", "[[a-z]&&\\q{}]"]
+
 # name -> (tokens, wrap or None, maxlen quick, maxlen thorough)
 FAMILIES = {
     "chars": (CHARS, None, 3, 4),
     "group": (GROUP, None, 3, 4),
     "class": (CLASS, ("[", "]"), 3, 3),
-    "negclass": (CLASS, ("[^", "]"), 2, 3),
+    "negclass": (CLASS, ("[^", "]"), 3, 3),
     "names": (NAMES, None, 4, 5),
     "uescape": (UESC, None, 4, 5),
     "props": (PROPS, None, 4, 5),
     "prescan": (PRESCAN, None, 3, 4),
+    "modsets": (MODSETS, None, 3, 4),
 }
 
 
